@@ -112,7 +112,9 @@ Fixpoint db_by_u (u : Z) (t : table) : option (Z * (Z * Z)) :=
 Record config := mkCfg
   { cexpiry : Z;                 (* WithExpiry, ns (<= 0: default) *)
     cnf : Z;                     (* WithNotFoundExpiry, ns (<= 0: default) *)
-    cnodes : list (key * Z) }.   (* node of a key (absent: node 0) *)
+    cnodes : list (key * Z);     (* node of a key (absent: node 0) *)
+    ccluster : bool }.           (* the nodes are Redis clusters (redis.ClusterType): a DEL of several
+                                    keys is issued, and retried, key by key *)
 
 Definition sec : Z := 1000000000.
 Definition default_expiry : Z := gen_default_expiry.      (* cacheopt.go defaultExpiry, ns *)
@@ -202,6 +204,13 @@ Inductive ret :=
 Record obs := mkObs { oret : ret; oqi : Z; oqp : Z }.   (* result, index / primary queries run *)
 
 (* ------------------------------------------------------------------ DelCtx *)
+(* cacheNode.DelCtx on a failing node: one retry task for the whole DEL, or - cluster type and
+   more than one key - a DEL and a retry task per key *)
+Definition del_tasks (c : config) (ks : list key) (n : Z) : list task :=
+  if ccluster c && (1 <? Z.of_nat (length ks))
+  then map (fun k => first_task [k] n) ks
+  else [first_task ks n].
+
 (* one node's share of a DEL: done, or - node down - left to the cleaner *)
 Definition del_on_node (c : config) (n : Z) (keys : list key) (s : state) : state :=
   let ks := filter (fun k => node_of c k =? n) keys in
@@ -210,7 +219,7 @@ Definition del_on_node (c : config) (n : Z) (keys : list key) (s : state) : stat
   | _ =>
     if node_down s n then
       mkState (db s) (dbFault s) (cache s) (cfault s)
-              (pending s ++ [first_task ks n]) (lost s) (clock s)
+              (pending s ++ del_tasks c ks n) (lost s) (clock s)
     else
       mkState (db s) (dbFault s) (remove_all ks (cache s)) (cfault s) (pending s)
               (filter (fun k => negb (mem_key k ks)) (lost s)) (clock s)
